@@ -212,6 +212,23 @@ def _layout_cases(item, cfg, cutoff, n, out):
                             rec[key + "_args"] = [np.asarray(kw["mu"], dtype=float).tolist(), np.asarray(kw["cov"], dtype=float).tolist(), int(kw["samples"])]
                     except Exception as e:  # noqa
                         rec[key + "_error"] = "%s: %s" % (type(e).__name__, str(e)[:150])
+                    if shots == 1:
+                        # post-selection: honoured (outcome = the selected value) or refused, never silently ignored
+                        sel = [1] * len(ms)
+                        try:
+                            prog = sf.Program(n)
+                            with prog.context as q:
+                                regs = sfx.apply_hist(q, hist)
+                                opcls(select=sel) | tuple(regs[m] for m in ms)
+                            with warnings.catch_warnings():
+                                warnings.simplefilter("ignore")
+                                with Patch([(gb, attr, lambda *a, **kw: np.zeros((1, len(ms)), dtype=int))]):
+                                    res = sfx.engine(cfg, cutoff).run(prog)
+                            rec[kindname + "_select"] = {"select": sel, "samples": np.asarray(res.samples).tolist()}
+                        except NotImplementedError:
+                            rec[kindname + "_select"] = {"select": sel, "refused": True}
+                        except Exception as e:  # noqa
+                            rec[kindname + "_select"] = {"select": sel, "error": "%s: %s" % (type(e).__name__, str(e)[:150])}
         out.append(rec)
 
 
@@ -555,6 +572,13 @@ def judge(chk, sc, cfg, it, rec, det0):
                 chk.violation("SamplerArguments", dict(f, via=kindname, tuple_len=len(ms)), dict(det, got_mean=a[0], want_mean=mu.tolist(), got_cov=a[1], want_cov=V.tolist()))
         for key in [k for k in rec if k.endswith("_error") and not k.startswith("hom")]:
             chk.violation("UnexpectedError", dict(f, via=key[:-6]), dict(det, msg=rec[key]))
+        for key in [k for k in rec if k.endswith("_select")]:
+            r = rec[key]
+            chk.count(key=("select", cfg, key, json.dumps(it["hist"]), tuple(ms)), nontrivial=True)
+            if "error" in r:
+                chk.violation("UnexpectedError", dict(f, via=key), dict(det, msg=r["error"]))
+            elif not r.get("refused") and r["samples"] != [r["select"]]:
+                chk.violation("PostSelectionIgnored", dict(f, via=key[:-7], tuple_len=len(ms)), dict(det, select=r["select"], samples=r["samples"]))
     elif rec["kind"] == "count":
         ms = rec["ms"]
         det = dict(det0, measured=ms)
